@@ -112,7 +112,7 @@ def raw_case(draw, tier):
 
 def cases(tier):
     return st.one_of(c01.vector_case(OTSVG_PICO, tier), c01.vector_case(OTSVG_PICO, tier), c01.vector_case(OTSVG_PICO, tier), c01.grid_case(OTSVG_PICO, tier),
-                     c01.prefix_pair_case(OTSVG_PICO, tier), c01.paint_variants_case(OTSVG_PICO, tier), c01.overlay_case(OTSVG_PICO, tier), c01.far_reuse_case(OTSVG_PICO, tier), c01.sandwich_case(OTSVG_PICO, tier), raw_case(tier), raw_case(tier))
+                     c01.prefix_pair_case(OTSVG_PICO, tier), c01.paint_variants_case(OTSVG_PICO, tier), c01.overlay_case(OTSVG_PICO, tier), c01.far_reuse_case(OTSVG_PICO, tier), c01.sandwich_case(OTSVG_PICO, tier), c01.inplace_reuse_case(OTSVG_PICO, tier), raw_case(tier), raw_case(tier))
 
 
 def enumerate_cases(tier):
